@@ -234,7 +234,15 @@ func check(prop, tier string) int {
 				continue
 			}
 			if r.Status == "timeout" || r.Status == "unknown" {
-				again = append(again, i)
+				known := false
+				for k := range findings {
+					if findings[k].Obligation == r.Ob.Name && findings[k].Status == "open" && findings[k].Property == prop {
+						known = true // the obligation of a listed open finding is expected to fail: no second attempt
+					}
+				}
+				if !known {
+					again = append(again, i)
+				}
 			}
 		}
 		if len(again) > 0 && len(again) <= 12 {
